@@ -417,7 +417,11 @@ func injectionLayout(r *rand.Rand, inj *injection) *gen.Layout {
 	if inj.name == "both-headers" || inj.name == "no-header" {
 		wild = false
 	}
-	return &gen.Layout{R: r, Wild: wild, CRLF: wild && r.Intn(4) == 0, Comments: r.Intn(2) == 0}
+	l := &gen.Layout{R: r, Wild: wild, CRLF: wild && r.Intn(4) == 0, Comments: r.Intn(2) == 0}
+	if inj.name != "both-headers" && inj.name != "no-header" && r.Intn(48) == 0 {
+		l.Long = 66000 + r.Intn(5000) // the defect sits behind a line longer than 64 KiB
+	}
+	return l
 }
 
 // runInjections drives the catalogue: quick = random (kind, site, variant) per AST; thorough = every kind x every site.
